@@ -14,8 +14,8 @@ import (
 	"io"
 	"log"
 	"strconv"
-	"strings"
 	"testing"
+	"time"
 
 	"github.com/KafScale/platform/addons/processors/iceberg-processor/internal/checkpoint"
 	"github.com/KafScale/platform/addons/processors/iceberg-processor/internal/config"
@@ -32,18 +32,19 @@ const c33Mod = "iceberg"
 type c33Lister struct{ w *c33World }
 
 func (l *c33Lister) ListCompleted(ctx context.Context) ([]discovery.SegmentRef, error) {
-	n, err := l.w.OnList()
+	idx, err := l.w.OnList()
 	if err != nil {
 		return nil, err
 	}
-	out := make([]discovery.SegmentRef, 0, n)
-	for _, s := range l.w.p.Segs[:n] {
-		out = append(out, discovery.SegmentRef{Topic: c33Topic, Partition: c33Partition, BaseOffset: s.Base, SegmentKey: s.Key, IndexKey: s.Key + ".index"})
+	out := make([]discovery.SegmentRef, 0, len(idx))
+	for _, i := range idx {
+		s := l.w.p.Segs[i]
+		out = append(out, discovery.SegmentRef{Topic: c33Topic, Partition: s.Part, BaseOffset: s.Base, SegmentKey: s.Key, IndexKey: s.Key + ".index"})
 	}
 	return out, nil
 }
 
-func c33BlobKey(o int64) string { return "blob-" + strconv.FormatInt(o, 10) }
+func c33BlobKey(part int32, o int64) string { return fmt.Sprintf("blob-%d-%d", part, o) }
 func c33Payload(o int64) []byte { return []byte("resolved-payload-" + strconv.FormatInt(o, 10)) }
 
 type c33Decoder struct{ w *c33World }
@@ -56,9 +57,9 @@ func (d *c33Decoder) Decode(ctx context.Context, segmentKey, indexKey, topic str
 	out := make([]decoder.Record, 0, s.N)
 	for o := s.Base; o < s.Base+int64(s.N); o++ {
 		val := []byte("v-" + strconv.FormatInt(o, 10))
-		if d.w.p.Lfs[o] {
+		if d.w.p.Lfs[[2]int64{int64(partition), o}] {
 			sum := sha256.Sum256(c33Payload(o))
-			env, err := lfs.EncodeEnvelope(lfs.Envelope{Version: 1, Bucket: "b", Key: c33BlobKey(o), Size: int64(len(c33Payload(o))), SHA256: hex.EncodeToString(sum[:])})
+			env, err := lfs.EncodeEnvelope(lfs.Envelope{Version: 1, Bucket: "b", Key: c33BlobKey(partition, o), Size: int64(len(c33Payload(o))), SHA256: hex.EncodeToString(sum[:])})
 			if err != nil {
 				return nil, fmt.Errorf("harness: %v", err)
 			}
@@ -75,18 +76,21 @@ type c33Store struct {
 }
 
 func (s *c33Store) ClaimLease(ctx context.Context, topic string, partition int32, ownerID string) (checkpoint.Lease, error) {
-	if err := s.w.OnClaim(); err != nil {
+	if err := s.w.OnClaim(partition); err != nil {
 		return checkpoint.Lease{}, err
 	}
 	return checkpoint.Lease{Topic: topic, Partition: partition, OwnerID: ownerID}, nil
 }
-func (s *c33Store) RenewLease(ctx context.Context, lease checkpoint.Lease) error   { return nil }
-func (s *c33Store) ReleaseLease(ctx context.Context, lease checkpoint.Lease) error { return nil }
+func (s *c33Store) RenewLease(ctx context.Context, lease checkpoint.Lease) error { return s.w.OnRenew() }
+func (s *c33Store) ReleaseLease(ctx context.Context, lease checkpoint.Lease) error {
+	s.w.OnRelease()
+	return nil
+}
 func (s *c33Store) LoadOffset(ctx context.Context, topic string, partition int32) (checkpoint.OffsetState, error) {
 	if s.inner != nil {
 		return s.inner.LoadOffset(ctx, topic, partition)
 	}
-	o, err := s.w.OnLoad()
+	o, err := s.w.OnLoad(partition)
 	if err != nil {
 		return checkpoint.OffsetState{}, err
 	}
@@ -96,7 +100,7 @@ func (s *c33Store) CommitOffset(ctx context.Context, st checkpoint.OffsetState) 
 	if s.inner != nil {
 		return s.inner.CommitOffset(ctx, st)
 	}
-	return s.w.OnCommit(st.Offset)
+	return s.w.OnCommit(st.Partition, st.Offset)
 }
 
 type c33Sink struct{ w *c33World }
@@ -106,18 +110,22 @@ func (s *c33Sink) Write(ctx context.Context, records []sink.Record) error {
 	for i, r := range records {
 		offs[i] = r.Offset
 	}
-	return s.w.OnSink(offs)
+	if len(records) == 0 {
+		return nil
+	}
+	return s.w.OnSink(records[0].Partition, offs)
 }
 func (s *c33Sink) Close(ctx context.Context) error { return nil }
 
 type c33LfsReader struct{ w *c33World }
 
 func (r *c33LfsReader) Fetch(ctx context.Context, key string) ([]byte, error) {
-	o, err := strconv.ParseInt(strings.TrimPrefix(key, "blob-"), 10, 64)
-	if err != nil {
+	var part int32
+	var o int64
+	if _, err := fmt.Sscanf(key, "blob-%d-%d", &part, &o); err != nil {
 		return nil, fmt.Errorf("harness: bad blob key %q", key)
 	}
-	if err := r.w.OnLfsFetch(o); err != nil {
+	if err := r.w.OnLfsFetch(part, o); err != nil {
 		return nil, err
 	}
 	return c33Payload(o), nil
@@ -148,8 +156,18 @@ func c33Exec(t *testing.T, p *c33Plan, w *c33World) error {
 	return c33RunBubble(t, p, w, proc.Run)
 }
 
+// c33RenewEvery makes the lease renewal ticker (a package variable in this module) fire at
+// instants that never coincide with the 5 s poll ticker within a run (<= 30 s), so that the
+// order of "renewal failed" and "poll tick" is not left to the goroutine scheduler.
+func c33RenewEvery(t *testing.T) {
+	old := leaseRenewInterval
+	leaseRenewInterval = 7 * time.Second
+	t.Cleanup(func() { leaseRenewInterval = old })
+}
+
 func TestVF_C33_Iceberg(t *testing.T) {
 	log.SetOutput(io.Discard)
+	c33RenewEvery(t)
 	st := vfkit.NewStats("C33", c33Mod)
 	defer st.Flush()
 	rapid.Check(t, func(rt *rapid.T) {
@@ -160,6 +178,7 @@ func TestVF_C33_Iceberg(t *testing.T) {
 
 func TestVF_C33_Witness(t *testing.T) {
 	log.SetOutput(io.Discard)
+	c33RenewEvery(t)
 	st := vfkit.NewStats("C33", c33Mod+"-witness")
 	defer st.Flush()
 	c33Witnesses(t, st, c33Mod, true, c33Exec)
